@@ -618,6 +618,7 @@ from . import h5  # noqa
 
 
 from . import np_setops  # noqa
+from . import np_real  # noqa
 
 
 def on_new_path(i):
